@@ -7,7 +7,9 @@ from ..common import derive_rng, fp, exc_origin, norm, corner_values
 
 PROPERTY = "C17"
 LEVEL = "exploration"
-RULE = ("FFSynchronizer (stages 2..5, width 0..8 signed/unsigned, any init, reset_less both ways), "
+RULE = ("input and output domains clocked on the rising or the falling edge (AsyncFF/ResetSynchronizer output domain: "
+        "rising only, as the primitive requires); observations right after each active edge and after the clock returned; "
+        "FFSynchronizer (stages 2..5, width 0..8 signed/unsigned, any init, reset_less both ways), "
         "AsyncFFSynchronizer (stages 2..5, async_edge pos/neg), ResetSynchronizer (stages 2..5, sync and "
         "async reset domains), PulseSynchronizer (stages 2..5): random schedules of 200 events over "
         "{input change, input-domain edge, output-domain edge, both edges at once} compared after every "
@@ -36,10 +38,22 @@ class Viol(Exception):
 # Events: ("in", value) | ("edge", mask)  mask bit0 = input-domain clock, bit1 = output-domain clock
 # ------------------------------------------------------------------------------------------------
 
+def mkdomain(name, neg, **kw):
+    """A clock domain; when clocked on the falling edge, its clock signal idles at 1 from time 0 on."""
+    from amaranth.hdl import ClockDomain, Signal
+    cd = ClockDomain(name, clk_edge="neg" if neg else "pos", **kw)
+    if neg:
+        cd.clk = Signal(name=f"{name}_clk", init=1)
+    return cd
+
+
 class Dev:
     def build(self):
         from amaranth.hdl import Cat
         from amaranth.sim import Simulator
+        # a domain clocked on the falling edge has a clock that idles at 1 (see mkdomain); the harness speaks of
+        # "the active edge" (mask bit set) and translates to levels here
+        self.idle = (1 if self.icd.clk_edge == "neg" else 0) | (2 if self.ocd.clk_edge == "neg" else 0)
         self.sim = Simulator(self.m)
         self.clkcat = Cat(self.icd.clk, self.ocd.clk)
         sigs, mems = state_holders(self.sim)
@@ -48,21 +62,21 @@ class Dev:
         return self
 
     def pulse(self, ctx, mask):
-        ctx.set(self.clkcat, mask)
-        ctx.set(self.clkcat, 0)
+        ctx.set(self.clkcat, mask ^ self.idle)
+        ctx.set(self.clkcat, self.idle)
 
     def step_checked(self, ctx, st, ev):
         """Apply one event and compare with the model; for clock edges the comparison is made right
         after the rising edge and again after the clock has fallen. -> new model state"""
         if ev[0] == "edge":
-            ctx.set(self.clkcat, ev[1])
+            ctx.set(self.clkcat, ev[1] ^ self.idle)
             st2 = self.model_step(st, ev)
             try:
                 self.check(ctx, st2)
             except Viol as v:
-                v.detail["when"] = "right after the rising edge"
+                v.detail["when"] = "right after the active edge"
                 raise
-            ctx.set(self.clkcat, 0)
+            ctx.set(self.clkcat, self.idle)
         else:
             self.apply(ctx, ev)
             st2 = self.model_step(st, ev)
@@ -73,14 +87,15 @@ class Dev:
 class FFSyncDev(Dev):
     """din --(idom register)--> i --FFSynchronizer--> o"""
 
-    def __init__(self, width, signed, stages, init, reset_less):
+    def __init__(self, width, signed, stages, init, reset_less, neg=(False, False)):
         from amaranth.hdl import Module, Signal, ClockDomain, Shape
         from amaranth.lib.cdc import FFSynchronizer
-        self.cfg = dict(kind="FFSynchronizer", width=width, signed=signed, stages=stages, init=init, reset_less=reset_less)
+        self.cfg = dict(kind="FFSynchronizer", width=width, signed=signed, stages=stages, init=init, reset_less=reset_less,
+                        negedge=list(neg))
         self.width, self.signed, self.stages = width, signed, stages
         m = Module()
-        self.icd = ClockDomain("idom", reset_less=True)
-        self.ocd = ClockDomain("odom")
+        self.icd = mkdomain("idom", neg[0], reset_less=True)
+        self.ocd = mkdomain("odom", neg[1])
         m.domains.idom = self.icd
         m.domains.odom = self.ocd
         sh = Shape(width, signed)
@@ -140,13 +155,14 @@ class FFSyncDev(Dev):
 class AsyncFFDev(Dev):
     """AsyncFFSynchronizer / ResetSynchronizer: model = number of released edges since last assert."""
 
-    def __init__(self, kind, stages, edge="pos", async_domain=False):
+    def __init__(self, kind, stages, edge="pos", async_domain=False, neg=(False, False)):
         from amaranth.hdl import Module, Signal, ClockDomain
         from amaranth.lib.cdc import AsyncFFSynchronizer, ResetSynchronizer
-        self.cfg = dict(kind=kind, stages=stages, async_edge=edge, async_reset_domain=async_domain)
+        self.cfg = dict(kind=kind, stages=stages, async_edge=edge, async_reset_domain=async_domain, negedge=[neg[0], False])
         self.stages, self.edge = stages, edge
         m = Module()
-        self.icd = ClockDomain("idom", reset_less=True)   # unrelated clock: must have no influence
+        # unrelated clock: must have no influence (the output domain must be posedge: the primitive requires it)
+        self.icd = mkdomain("idom", neg[0], reset_less=True)
         self.ocd = ClockDomain("odom", async_reset=async_domain)
         m.domains.idom = self.icd
         m.domains.odom = self.ocd
@@ -205,14 +221,14 @@ class AsyncFFDev(Dev):
 
 
 class PulseDev(Dev):
-    def __init__(self, stages):
+    def __init__(self, stages, neg=(False, False)):
         from amaranth.hdl import Module, Signal, ClockDomain
         from amaranth.lib.cdc import PulseSynchronizer
-        self.cfg = dict(kind="PulseSynchronizer", stages=stages)
+        self.cfg = dict(kind="PulseSynchronizer", stages=stages, negedge=list(neg))
         self.stages = stages
         m = Module()
-        self.icd = ClockDomain("idom", reset_less=True)
-        self.ocd = ClockDomain("odom", reset_less=True)
+        self.icd = mkdomain("idom", neg[0], reset_less=True)
+        self.ocd = mkdomain("odom", neg[1], reset_less=True)
         m.domains.idom = self.icd
         m.domains.odom = self.ocd
         ps = m.submodules.dut = PulseSynchronizer("idom", "odom", stages=stages)
@@ -386,7 +402,7 @@ def shards(tier, seed):
     n = 320 if tier == "quick" else 16000
     specs = [{"kind": "sample", "seed": seed, "shard": i, "schedules": n // NSHARDS, "events": 200} for i in range(NSHARDS)]
     L = 7 if tier == "quick" else 9
-    for dev in ("ff2", "ff3", "aff2p", "aff2n", "aff3p", "rs2", "rs3", "rs2a"):
+    for dev in ("ff2", "ff3", "ff2neg", "aff2p", "aff2n", "aff3p", "rs2", "rs3", "rs2a"):
         specs.append({"kind": "enum", "dev": dev, "L": L})
     return specs
 
@@ -396,6 +412,8 @@ def make_enum_dev(name):
         return FFSyncDev(1, False, 2, 1, True)
     if name == "ff3":
         return FFSyncDev(1, False, 3, 0, True)
+    if name == "ff2neg":
+        return FFSyncDev(1, False, 2, 1, True, neg=(False, True))
     if name == "aff2p":
         return AsyncFFDev("AsyncFFSynchronizer", 2, "pos")
     if name == "aff2n":
@@ -414,16 +432,17 @@ def make_enum_dev(name):
 def random_dev(rng):
     k = rng.random()
     stages = rng.choice([2, 2, 3, 4, 5])
+    neg = (rng.random() < 0.3, rng.random() < 0.3)
     if k < 0.35:
         width = rng.choice([0, 1, 1, 2, 3, 4, 5, 8])
         signed = width > 0 and rng.random() < 0.3
         init = rng.choice(corner_values(width, signed, rng, 1))
-        return FFSyncDev(width, signed, stages, init, rng.random() < 0.7)
+        return FFSyncDev(width, signed, stages, init, rng.random() < 0.7, neg=neg)
     if k < 0.55:
-        return AsyncFFDev("AsyncFFSynchronizer", stages, rng.choice(["pos", "neg"]))
+        return AsyncFFDev("AsyncFFSynchronizer", stages, rng.choice(["pos", "neg"]), neg=neg)
     if k < 0.75:
-        return AsyncFFDev("ResetSynchronizer", stages, "pos", async_domain=rng.random() < 0.4)
-    return PulseDev(stages)
+        return AsyncFFDev("ResetSynchronizer", stages, "pos", async_domain=rng.random() < 0.4, neg=neg)
+    return PulseDev(stages, neg=neg)
 
 
 def run_shard(spec):
@@ -450,6 +469,8 @@ def run_shard(spec):
                 dev = random_dev(rng).build()
                 kind = dev.cfg["kind"]
                 out["hist"][f"{kind}:stages={dev.cfg['stages']}"] = out["hist"].get(f"{kind}:stages={dev.cfg['stages']}", 0) + 1
+                ek = f"{kind}:clock-edges(in,out)=" + ",".join("neg" if x else "pos" for x in dev.cfg["negedge"])
+                out["hist"][ek] = out["hist"].get(ek, 0) + 1
                 if isinstance(dev, PulseDev):
                     v, st = run_pulse(dev, rng, spec["events"] * 2, out)
                     for kk, vv in st.items():
@@ -489,9 +510,9 @@ def replay(rec):
     cfg = d.get("config", {})
     print(json.dumps(cfg), rec.get("mechanism"))
     if cfg.get("kind") == "FFSynchronizer":
-        dev = FFSyncDev(cfg["width"], cfg["signed"], cfg["stages"], cfg["init"], cfg["reset_less"]).build()
+        dev = FFSyncDev(cfg["width"], cfg["signed"], cfg["stages"], cfg["init"], cfg["reset_less"], neg=cfg.get("negedge", (False, False))).build()
     elif cfg.get("kind") in ("AsyncFFSynchronizer", "ResetSynchronizer"):
-        dev = AsyncFFDev(cfg["kind"], cfg["stages"], cfg["async_edge"], cfg["async_reset_domain"]).build()
+        dev = AsyncFFDev(cfg["kind"], cfg["stages"], cfg["async_edge"], cfg["async_reset_domain"], neg=cfg.get("negedge", (False, False))).build()
     else:
         print("replay: pulse-count violations are reproduced by re-running the check with the same VERIF_SEED")
         return 0
